@@ -352,7 +352,7 @@ func (b *builder) body(a []int) string {
 	if b.sh.Dmg == "nul" {
 		line("nul\x00in body")
 	}
-	if b.sh.Dmg == "barecr" {
+	if b.sh.Dmg == "barecr" || b.sh.Dmg == "barecrhdr" {
 		s.WriteString("bare\rcr\rlines\r")
 	}
 	return s.String()
@@ -418,7 +418,7 @@ func Build(t *Tree, sh Shape, layout []Chunk, tag string) *Built {
 				out.Chunks[i] = append([]byte("Bad Key\xe9: v"+b.nl()), out.Chunks[i]...)
 			}
 		}
-	case "barecr":
+	case "barecrhdr":
 		for i, ch := range layout {
 			if ch.C == "fld" && ch.F == "Subject" {
 				out.Chunks[i] = bytes.Replace(out.Chunks[i], []byte("subject"), []byte("sub\rject"), 1)
